@@ -445,6 +445,21 @@ fn gen(dir: &str) {
                                      _ => format!("-{}", r.u64_edge()) };
         emit(&mut out, format!("int big {}", big));
     }
+    // every boundary literal with every sign, through every decimal entry point (deterministic grid)
+    for b in ["0", "1", "2147483647", "2147483648", "2147483649", "4294967295", "4294967296", "9223372036854775807", "9223372036854775808",
+              "9223372036854775809", "18446744073709551614", "18446744073709551615", "18446744073709551616", "18446744073709551617",
+              "170141183460469231731687303715884105727", "170141183460469231731687303715884105728", "170141183460469231731687303715884105729",
+              "340282366920938463463374607431768211455", "340282366920938463463374607431768211456", "99999999999999999999999"] {
+        for sign in ["", "-", "+"] {
+            let s = format!("{}{}", sign, b);
+            let h = hex_or_dash(s.as_bytes());
+            emit(&mut out, format!("int str {}", h));
+            emit(&mut out, format!("int key {}", h));
+            emit(&mut out, format!("bnstr {}", h));
+            emit(&mut out, format!("bistr {}", h));
+            if sign != "+" { emit(&mut out, format!("int json {}", h)); emit(&mut out, format!("biz {}", s)); emit(&mut out, format!("int big {}", s)); }
+        }
+    }
     for _ in 0..400 * scale {
         let s = dec_text(&mut r, true, false);
         emit(&mut out, format!("int str {}", hex_or_dash(s.as_bytes())));
